@@ -111,6 +111,7 @@ def api_self(I: Interp, st: State, cls: ClassInfo, connected: bool = True) -> Te
         "_port": ("sym", "port", "int"),
         "_connected": c(connected),
     }
+    cls.require_attrs(list(fields) + ["_reader", "_writer"], "symbolic API instance")
     if connected:
         fields["_reader"] = ("sym", "reader", ("extobj", "StreamReader"))
         fields["_writer"] = ("sym", "writer", ("extobj", "StreamWriter"))
